@@ -228,6 +228,7 @@ def single_defs(func: ast.AST) -> Dict[str, ast.AST]:
     for n in walk_local(func):
         if isinstance(n, ast.Attribute) and isinstance(n.ctx, (ast.Store, ast.Del)) and isinstance(n.value, ast.Name):
             mutated.add(n.value.id)  # `x.a = v`: an object under construction, the name stands for its identity
+    mutated |= _returned_and_written(func)
     return {k: v for k, v in defs.items() if count.get(k) == 1 and k not in params and k not in mutated and not _is_fresh_container(v)}
 
 
@@ -382,3 +383,18 @@ def equivalent_ifexp(e: ast.AST, var: str, none_val: str, some_val: str) -> bool
         return False
     a, b = (_txt(e.body), _txt(e.orelse)) if not neg else (_txt(e.orelse), _txt(e.body))
     return a == none_val and b == some_val
+
+
+def _returned_and_written(func: ast.AST) -> set:
+    """names that are returned by the function and written through at any depth (`ret.__dict__[k] = v; return ret`):
+    results under construction"""
+    returned = {n.value.id for n in walk_local(func) if isinstance(n, ast.Return) and isinstance(n.value, ast.Name)}
+    out = set()
+    for n in walk_local(func):
+        if isinstance(n, (ast.Attribute, ast.Subscript)) and isinstance(n.ctx, (ast.Store, ast.Del)):
+            b = n.value
+            while isinstance(b, (ast.Attribute, ast.Subscript)):
+                b = b.value
+            if isinstance(b, ast.Name) and b.id in returned:
+                out.add(b.id)
+    return out
